@@ -429,12 +429,12 @@ func corrC20Time(r *Run) *c20Time {
 	r.Import("Model.SmppTime")
 	c := &c20Time{r: r, caseLeft: map[string]int{}}
 	rng := r.Rng
-	// model-case budgets (each op line is ALSO a direct test; thorough runs every line through the model)
-	big := 1 << 30
-	c.caseLeft["timeparse"] = r.N(22000, big)
-	c.caseLeft["timefmt"] = r.N(25000, big)
-	c.caseLeft["durfmt"] = r.N(4000, big)
-	c.caseLeft["durparse"] = r.N(1500, big)
+	// kernel-case budgets (each op line is ALSO a direct test; in the thorough tier every line additionally
+	// goes through the extracted model, the kernel cases being the vm_compute slice all three must agree on)
+	c.caseLeft["timeparse"] = r.N(5000, 40000)
+	c.caseLeft["timefmt"] = r.N(5000, 45000)
+	c.caseLeft["durfmt"] = r.N(1500, 12000)
+	c.caseLeft["durparse"] = r.N(500, 5000)
 
 	// ---- 0. corpus: the repository's own vectors and the known finding first
 	for _, s := range []string{"", "000101000000000+", "111019080000704-", "201020182347832+", "991231235959948+",
@@ -480,7 +480,7 @@ func corrC20Time(r *Run) *c20Time {
 							for _, t := range ts {
 								for _, nn := range nns {
 									for _, p := range []byte{'+', '-'} {
-										corner := (yy == 0 || yy == 99) && (mo == 1 || mo == 2 || mo == 12) && dd != 30
+										corner := (yy == 0 || yy == 99) && (mo == 1 || mo == 2 || mo == 12) // the product the property's quantifier lists
 										prod = append(prod, cand{absString(yy, mo, dd, hh, mi, ss, t, nn, p), corner})
 									}
 								}
@@ -491,7 +491,8 @@ func corrC20Time(r *Run) *c20Time {
 			}
 		}
 	}
-	// corners always reach the model; the rest of the product reaches it in seeded random order while the budget lasts
+	// the listed product always reaches the kernel model in full; the wider product (4 years x 12 months) reaches it in
+	// seeded random order while the quick budget lasts (all of it in the thorough tier); every string is a direct test
 	for _, x := range prod {
 		if x.corner {
 			c.timeParse(x.s, "boundary-product", true)
@@ -522,7 +523,7 @@ func corrC20Time(r *Run) *c20Time {
 			p = '-'
 		}
 		s := absString(yy, mo, dd, rng.Intn(24), rng.Intn(60), rng.Intn(60), rng.Intn(10), rng.Intn(49), p)
-		c.timeParse(s, "random-valid", i < r.N(600, n))
+		c.timeParse(s, "random-valid", i < r.N(600, 10000))
 		if i < 2 {
 			r.Sample(map[string]interface{}{"op": "timeparse", "string": s})
 		}
@@ -577,7 +578,7 @@ func corrC20Time(r *Run) *c20Time {
 	for i := 0; i < n; i++ {
 		q := rng.Intn(97) - 48
 		l := int64(rng.U64() % uint64(centuryTenths))
-		c.timeFmt(l-int64(q)*9000, q, "random", i < r.N(2500, n))
+		c.timeFmt(l-int64(q)*9000, q, "random", i < r.N(2500, 12000))
 		if i < 2 {
 			r.Sample(map[string]interface{}{"op": "timefmt", "tenths_since_2000": l - int64(q)*9000, "quarter_hours": q, "string": opTimeFmt(l-int64(q)*9000, q)})
 		}
@@ -606,7 +607,7 @@ func corrC20Time(r *Run) *c20Time {
 	for d := int64(0); d < int64(r.N(3000, 40000)); d++ {
 		c.durFmt(d, "dense-low", d < 700)
 	}
-	step := int64(r.N(7919*211, 7919*13)) // coprime to every unit
+	step := int64(r.N(7919*211, 7919*53)) // coprime to every unit
 	for d := int64(10); d < durMax; d += step {
 		c.durFmt(d, "coarse-grid", false)
 	}
@@ -627,7 +628,7 @@ func corrC20Time(r *Run) *c20Time {
 			}
 			d %= durMax
 		}
-		c.durFmt(d, "random", i < r.N(600, n))
+		c.durFmt(d, "random", i < r.N(600, 5000))
 		if i < 2 {
 			r.Sample(map[string]interface{}{"op": "durfmt", "tenths": d, "string": opDurFmt(d)})
 		}
@@ -640,4 +641,28 @@ func corrC20Time(r *Run) *c20Time {
 		c.durParse(s, "field-wise", true)
 	}
 	return c
+}
+
+// replay: re-run one recorded op line ("timeparse <hex> ...", "timefmt <tenths> <q> ...", "durfmt <tenths> ...",
+// "durparse <hex> ...") on the implementation
+func init() {
+	replayTable["C20"] = func(arg string) string {
+		f := strings.Fields(arg)
+		if len(f) < 2 {
+			return "no op line"
+		}
+		n := 2
+		if f[0] == "timefmt" {
+			n = 3
+		}
+		if len(f) < n {
+			return "bad op line"
+		}
+		line := strings.Join(f[:n], " ")
+		obs := c20Op(line)
+		if o := strings.Fields(obs); len(o) == 2 && (f[0] == "timefmt" || f[0] == "durfmt") {
+			obs += fmt.Sprintf(" (%q)", unhexStr(o[1]))
+		}
+		return line + " -> " + obs
+	}
 }
